@@ -17,6 +17,18 @@ POSSIBLE_UNSAFE_KEYS = (
 )
 
 
+def _looks_like_asymmetric_key(raw_key):
+    # the asymmetric key loaders skip whatever precedes a PEM block (white
+    # space, a BOM, comment or attribute lines) and accept a TAB after the
+    # SSH key type, so a test on the first octets is not enough
+    if any(marker in raw_key for marker in POSSIBLE_UNSAFE_KEYS[:2]):
+        return True
+    head = raw_key.lstrip()
+    return any(
+        head.startswith(prefix.rstrip()) for prefix in POSSIBLE_UNSAFE_KEYS[2:]
+    )
+
+
 class OctKey(Key):
     """Key class of the ``oct`` key type."""
 
@@ -78,7 +90,7 @@ class OctKey(Key):
             raw_key = to_bytes(raw)
 
             # security check
-            if raw_key.startswith(POSSIBLE_UNSAFE_KEYS):
+            if _looks_like_asymmetric_key(raw_key):
                 raise ValueError("This key may not be safe to import")
 
             key = cls(raw_key=raw_key, options=options)
